@@ -57,20 +57,43 @@ theorem formula_exact (hid : rnd F = id) {min max v : F} {vmin vmax vv : ℚ}
 
 /-! ### which range is used; disabled normalisation (facts about the model's own definitions) -/
 
-/-- limits are used when both are present and of one numeric kind (double, single or integer) -/
-theorem range_from_limits_double (a b : UInt64) (p : Prototype) (n : RecordName) :
-    (rangeFor (some (some (.double a), some (.double b))) p n).isSome = true := by
-  simp [rangeFor, Range.fromLimits]
+/-- the limits are used whenever both are given as numbers (double, single or integer, also of two different
+    kinds): the range is built from exactly their real values -/
+theorem range_from_limits (a b : Value) (fa fb : Float) (p : Prototype) (n : RecordName)
+    (ha : limitValue a ((p.find? (fun r => r.name == n)).map (·.dt)) = some fa)
+    (hb : limitValue b ((p.find? (fun r => r.name == n)).map (·.dt)) = some fb) :
+    rangeFor (some (some a, some b)) p n = some (Range.fromMinMax fa fb) := by
+  simp [rangeFor, Range.fromLimits, ha, hb]
 
-/-- without usable limits the range of the attribute's data type is used; no attribute, no range -/
+theorem range_from_limits_double (a b : UInt64) (p : Prototype) (n : RecordName) :
+    rangeFor (some (some (.double a), some (.double b))) p n
+      = some (Range.fromMinMax (Float.ofBits a) (Float.ofBits b)) :=
+  range_from_limits _ _ _ _ p n rfl rfl
+
+/-- limits of two different kinds are used as well -/
+theorem range_mixed_limits (i : Int) (b : UInt64) (p : Prototype) (n : RecordName) :
+    rangeFor (some (some (.integer i), some (.double b))) p n
+      = some (Range.fromMinMax (i64ToFloat i) (Float.ofBits b)) :=
+  range_from_limits _ _ _ _ p n rfl rfl
+
+/-- **scaled-integer limits** are raw values of the attribute's data type: they count with its scale and offset -/
+theorem range_scaled_limits (a b mn mx : Int) (scale offset : UInt64) (n : RecordName) (p : Prototype) (r : Record)
+    (hfind : p.find? (fun r => r.name == n) = some r) (hdt : r.dt = .scaled mn mx scale offset) :
+    rangeFor (some (some (.scaled a), some (.scaled b))) p n
+      = some (Range.fromMinMax (i64ToFloat a * Float.ofBits scale + Float.ofBits offset)
+          (i64ToFloat b * Float.ofBits scale + Float.ofBits offset)) := by
+  apply range_from_limits <;> simp [hfind, hdt, limitValue]
+
+/-- without limits, or when one of them is missing, the range of the attribute's data type is used; no attribute,
+    no range -/
 theorem range_falls_back_to_type (p : Prototype) (n : RecordName) :
     (rangeFor none p n).isSome = (p.find? (fun r => r.name == n)).isSome := by
   simp [rangeFor]
 
-/-- mismatched limit kinds are ignored (fall back to the data type) -/
-theorem range_mismatched_limits (i : Int) (b : UInt64) (p : Prototype) (n : RecordName) :
-    rangeFor (some (some (.integer i), some (.double b))) p n = rangeFor none p n := by
-  simp [rangeFor, Range.fromLimits]
+theorem range_one_limit_missing (a : Value) (p : Prototype) (n : RecordName) :
+    rangeFor (some (some a, none)) p n = rangeFor none p n ∧
+    rangeFor (some (none, some a)) p n = rangeFor none p n := by
+  constructor <;> simp [rangeFor, Range.fromLimits]
 
 /-- with normalisation disabled the stored value is delivered unchanged as a 32-bit float -/
 theorem disabled_is_cast (v : UInt64) (r : Option Range) :
